@@ -52,3 +52,12 @@ claim('C15',
       'Real-number model; kernels from the .pyx source; masks bounded to boxes <= 3x3, centre mode (quick).',
       'symbolic execution of the real Python + SMT (z3 NRA / LIRA with integer windows)',
       'DESIGN.md section 5 C15')
+claim('C16',
+      'Bounded symbolic check of Region.copy/__eq__/__ne__ over all classes with every numeric field of two independent '
+      'instances symbolic: copy equals original and shares no mutable container (identity walk incl. nested lists, '
+      'arrays, Quantities), == holds exactly when the documented rule holds (class, positions within np.allclose '
+      'tolerance, other parameters exactly, meta, visual), symmetric away from the tolerance edge, unit re-expression '
+      'of angles compares equal; Regions slices/copies are new lists under fixed edit sequences.',
+      'Real-number model; sky coordinates concrete; one known finding (asymmetric tolerance of PixCoord.__eq__).',
+      'symbolic execution of the real Python + SMT (z3 NRA)',
+      'DESIGN.md section 5 C16')
